@@ -399,11 +399,67 @@ def _check_routing(prog: Program, res: Result):
                 if not ok:
                     res.violation("R20.5", f"routing|{c.name}|super|{ast.unparse(v) if v is not None else 'left-out'}", prog.loc(init, sc), init.qualname,
                                   f"{c.name}.__init__ passes flow_type = {ast.unparse(v) if v is not None else '<left out>'} to DesignBase")
+    # (d) the manager: every way set_design reports success has built a NEW design object from this call's flow number and flow
+    #     type and stored it - a path that keeps an earlier object carries the earlier call's flow type
+    from ..paths import Const as _C, Engine as _E, Hooks as _H, Obj as _O, State as _S, vkey as _vk
+    from ..sym import Rat as _R
+
+    sd = prog.func("ghedesigner.manager.GHEManager.set_design")
+    res.analysed(sd.qualname)
+    dclasses = {c.name: c for q, c in prog.classes.items() if q.startswith(DES + ".") and c.name != "DesignBase" and prog.method(q, "__init__") is not None}
+
+    class HD(_H):
+        def on_call(self, node, fname, args, kwargs, st, eng):
+            if fname in dclasses:
+                init_ = prog.method(dclasses[fname].qualname, "__init__")
+                b_ = bind_args(init_, node)
+                st.emit("DESIGN", (fname, {k: eng.eval(v, st) for k, v in b_.items() if k in ("v_flow", "flow_type")}), node)
+                return _O(f"DESIGN#{fname}#{node.lineno}")
+            return None
+
+        def on_assign(self, key, val, stmt, st, eng):
+            if key == "self._design":
+                st.emit("STORE", val, stmt)
+            if key in ("self._design.V_flow", "self._design.flow_type"):
+                st.emit("UPDATE", (key.rsplit(".", 1)[1], val), stmt)
+
+    e_ = _E(prog, sd, HD())
+    s_ = _S()
+    for p_ in sd.params():
+        s_.env[p_] = _R.atom(p_)
+    n_ok = 0
+    for f_ in e_.run_function(s_):
+        if f_.exit is None or f_.exit[0] != "return":
+            continue
+        rv = f_.exit[1]
+        if not (isinstance(rv, _R) and rv.is_const() and rv.const_value() == 0):
+            continue
+        ds = [e for e in f_.events if e.kind == "DESIGN"]
+        stored = [e for e in f_.events if e.kind == "STORE"]
+        okd = len(ds) == 1 and len(stored) >= 1 and isinstance(ds[0].data[1].get("v_flow"), _R) and ds[0].data[1]["v_flow"].equals(_R.atom(sd.params()[1] if sd.params()[0] == "self" else sd.params()[0]))
+        if not okd and not ds:
+            # an existing design object is kept: acceptable only if BOTH the flow number and the flow type are brought up to date
+            ups = {e.data[0]: e.data[1] for e in f_.events if e.kind == "UPDATE"}
+            fr = _R.atom(sd.params()[1] if sd.params()[0] == "self" else sd.params()[0])
+            okd = isinstance(ups.get("V_flow"), _R) and ups["V_flow"].equals(fr) and "flow_type" in ups and not (isinstance(ups["flow_type"], _R) and ups["flow_type"].equals(_R.atom("self._design.flow_type")))
+        n_ok += 1
+        n_links += 1
+        res.ob("R20.5", f"set_design reports success after building {ds[0].data[0] if ds else 'NO design object'} from this call's flow number and storing it", okd, prog.loc(sd, f_.exit[2]))
+        if not okd:
+            res.violation("R20.5", f"routing|set_design|{'no-design' if not ds else 'v_flow=' + _vk(ds[0].data[1].get('v_flow'))[:30]}", prog.loc(sd, f_.exit[2]), sd.qualname,
+                          "set_design returns 0 on a path that does not build a design object from this call's (flow_rate, flow_type): the design that is kept carries the flow type of an earlier call, "
+                          "so a system flow is searched as a per-borehole flow (or the reverse)")
+    if n_ok < 6:
+        raise AnalysisError(f"{sd.qualname}: success paths not found ({n_ok})")
     res.count("flow_type_links", n_links)
     res.floor("flow_type_links", 14)
 
 
 VARIANTS = [
+    Variant("set_design keeps the existing design object and only updates its flow number (seeded C20_e)", "break",
+            [("ghedesigner.manager", "        if self._geometric_constraints.type == DesignGeomType.NEARSQUARE:\n", "        if self._design is not None and self._design.geometric_constraints is self._geometric_constraints:\n            self._design.V_flow = flow_rate\n            return 0\n        if self._geometric_constraints.type == DesignGeomType.NEARSQUARE:\n")], "R20.5"),
+    Variant("set_design keeps the existing design object and updates flow number and flow type", "benign",
+            [("ghedesigner.manager", "        if self._geometric_constraints.type == DesignGeomType.NEARSQUARE:\n", "        if self._design is not None and self._design.geometric_constraints is self._geometric_constraints:\n            self._design.V_flow = flow_rate\n            self._design.flow_type = flow_type\n            return 0\n        if self._geometric_constraints.type == DesignGeomType.NEARSQUARE:\n")]),
     Variant("summary mass flow re-derived from the user's flow number (seeded C20_d)", "break",
             [("ghedesigner.output", "                'fluid_mass_flow_rate_per_borehole': add_with_units(design.ghe.bhe.m_flow_borehole, 'kg/s'),", "                'fluid_mass_flow_rate_per_borehole': add_with_units(design.V_flow / 1000.0 * design.ghe.bhe.fluid.rho, 'kg/s'),")], "R20.6"),
     Variant("BisectionZD no longer forwards flow_type, the base default hides it (seeded C20)", "break",
